@@ -391,3 +391,28 @@ def reinterpret_casts(run, rule, F):
                 run.ob(rule, 'reinterpreting cast in %s targets this->storage' % fn.short, ok, where=fn.pat,
                        detail=None if ok else ir.pp(e), key='reinterpreting cast in ' + fn.short)
     return n
+
+
+def source_untouched(run, rule, F, E):
+    """Copy/move construction and assignment of library objects leave their *source* as it was: the (transitive) write set of every copy/move
+    constructor and assignment operator contains only paths of the object under construction. A library that owns nothing has no reason
+    to "empty" a moved-from object; a moved-from machine stays a live object whose destructor runs finalExit() -- were its registry
+    reset behind the callbacks' back, the states it entered would never be exited and exit would be dispatched with the invalid
+    prong."""
+    n = 0
+    for fn in F.fns:
+        if not (fn.cls or '').startswith('ffsm2::') or fn.body is None:
+            continue
+        kind = None
+        if fn.kind == 'ctor' and fn.d.get('ctorkind') in ('copy', 'move'):
+            kind = fn.d['ctorkind'] + ' constructor'
+        elif fn.m == 'operator=' and len(fn.params) == 1:
+            kind = 'assignment'
+        if kind is None:
+            continue
+        ws = sorted(p for p in E.writes_star(fn) if p and p[0] != 'this')
+        n += 1
+        run.ob(rule, '%s %s writes only the object it initialises (its source is left as it was)' % (short(fn.tkey or fn.cls), kind), not ws, where=fn.pat,
+               detail=['.'.join(map(str, p)) for p in ws[:4]] or None,
+               key='%s %s modifies its source' % (short(fn.tkey or fn.cls), kind))
+    return n
